@@ -45,6 +45,9 @@ def coupling(ctx):
 
         def hstack(parts):
             a, b = parts
+            if a is None or b is None:
+                from fjvc.interp import PyRaise
+                raise PyRaise("TypeError", "concatenate of None")
             return CTV(HS(a.e, b.e))
 
         it.lib.overrides["jax.numpy.hstack"] = hstack
